@@ -306,4 +306,56 @@ Proof.
     rewrite (EO L NA NB). apply store_change_same.
 Qed.
 
+(* ---------- C07: delivery ---------- *)
+Lemma deliver_moved x tr t ts x' :
+  h_t_transit_outage sigma i x tr t ts = Ok x' ->
+  exists j x1 cur src dst B, tr_job tr = Some j /\ t_loc ts = LRoute cur src dst
+    /\ (match dst with PM m => Some (BPre m) | PB n => Some (BStd n) | PT _ => None end) = Some B
+    /\ B = (match dst with PM m => BPre m | PB n => BStd n | PT k => BAgv k end)
+    /\ moved i x x1 j (BAgv t) B.
+Proof.
+  intros H. unfold h_t_transit_outage in H. inv_all H. inversion H; subst; clear H.
+  apply of_opt_ok in E.
+  destruct (t_loc ts) as [|cur src dst] eqn:El; [discriminate|]. inversion E1; subst v1.
+  match goal with E : move_job _ _ _ (BAgv t) ?B = Ok ?y |- _ => rename E into Emv; rename y into x1; rename B into B0 end.
+  assert (HB : (match dst with PM m => Some (BPre m) | PB n => Some (BStd n) | PT _ => None end) = Some B0
+               /\ B0 = (match dst with PM m => BPre m | PB n => BStd n | PT k => BAgv k end) /\ BAgv t <> B0).
+  { match goal with E' : match dst with PM _ => _ | PB _ => _ | PT _ => _ end = Ok B0 |- _ =>
+      destruct dst; inv_all E'; inversion E'; subst; repeat split; congruence end. }
+  destruct HB as [HB [HB2 Hne]].
+  exists v, x1, cur, src, dst, B0. repeat split; auto; try (eapply move_job_moved; eauto).
+Qed.
+
+Theorem apply_ev_deliver x tr y :
+  NO x -> AG x -> apply_transition sigma i x tr = Ok y -> ev_deliver i x tr y = true.
+Proof.
+  intros N A H.
+  unfold ev_deliver. destruct (ekind_of x tr) eqn:Ek; try reflexivity.
+  destruct (ekind_machine _ _ _ Ek) as [[m [ms [s [Hc [Hms [Hn K]]]]]]|[t [ts [s [Hc [Hts [Hn K]]]]]]]; [congruence| |].
+  { destruct (m_st ms), s; try contradiction; discriminate. }
+  rewrite Hc. assert (Hst : t_st ts = TTransit) by (destruct (t_st ts), s; try contradiction; try discriminate; reflexivity).
+  destruct (apply_transport sigma i _ _ _ _ _ Hc Hts H) as [[B _]|[[B _]|[[[B|B] _]|[[_ [_ C]]|[[B _]|[B _]]]]]]; try congruence.
+  destruct (deliver_moved _ _ _ _ _ C) as [j [x1 [cur [src [dst [B [Ej [El [HB [HB2 M]]]]]]]]]].
+  destruct (post_deliver sigma i _ _ _ _ _ Hts C) as [j' [jb [cur' [src' [dst' [ac [B' [outs [sto' [occ_for [Ej' [Hjb [El' [Hac [EB' [Hno [Hocc [TT [Hbuf [Hj' _]]]]]]]]]]]]]]]]]]]].
+  assert (j' = j) by congruence. subst j'. assert (dst' = dst) by congruence. subst dst'. assert (EBB : B' = B) by congruence. clear EB'. rewrite EBB in Hbuf, Hj'. clear EBB.
+  destruct TT as [ts' [Hts' [S1 [S2 [S3 [S4 [S5 S6]]]]]]].
+  destruct (mv_b _ _ _ _ _ _ M) as [b0 [b0' [c0 [Hb0 _]]]]. destruct (Hbuf _ Hb0) as [b1 [Hb1 Hst1]].
+  destruct (mv_a _ _ _ _ _ _ M) as [a [a' [Ha [Hrm _]]]]. apply remove_from_buffer_ok in Hrm. destruct Hrm as [Hmem _].
+  simpl in Ha. rewrite Hts in Ha. simpl in Ha. inversion Ha; subst a.
+  pose proof (A _ _ (tview_of _ _ _ Hts)) as Ho. unfold holds_ok in Ho. simpl in Ho. rewrite Hst in Ho. destruct Ho as [j0 Ho].
+  rewrite Ho in Hmem. simpl in Hmem. rewrite orb_false_r in Hmem. apply Nat.eqb_eq in Hmem. subst j0.
+  rewrite Ej, Hts. cbn [opt_b]. rewrite Hts'. cbn [opt_b]. rewrite Hj'. cbn [opt_b]. rewrite El, HB. cbn [opt_b].
+  rewrite Hb0. cbn [opt_b]. rewrite Hb1. cbn [opt_b]. rewrite Hac. cbn [opt_b].
+  rewrite S1, S2, S3, S4, S5, S6, Ho, Hst1. unfold max_active_len. rewrite Hocc.
+  pose proof (trans_out_nonneg i Hnn _ _ Hac) as Hon.
+  destruct (new_outage_states_ok sigma _ _ _ _ _ _ (no_sto _ N) Hon Hno) as [Hfr _].
+  pose proof (occupied_time_nonneg _ _ _ Hfr Hocc) as H0.
+  replace (0 <=? occ_for) with true by (symmetry; apply Z.leb_le; lia).
+  rewrite (new_outage_states_sampled_ok sigma _ _ _ _ _ _ (no_sto _ N) Hon Hno).
+  rewrite !list_nat_eqb_refl. unfold remove_nat. simpl. rewrite Nat.eqb_refl. simpl.
+  assert (Eb : bid_eqb B B = true) by (apply bid_eqb_eq; reflexivity). rewrite Eb.
+  assert (Ep : place_eqb dst dst = true) by (destruct dst; simpl; apply Nat.eqb_refl). rewrite Ep.
+  rewrite Z.eqb_refl. reflexivity.
+Qed.
+
 End EO.
